@@ -187,6 +187,7 @@ class Sim:
         self.tainted40 = {}  # cid -> indices of the BindMeta operations (addressed to another class) that rewrote its Meta object
         self.tainted11 = {}  # cid -> indices of the definitions that left the foreign initialiser it picked up
         self.objt = {}       # Meta object -> indices of foreign definitions whose settings were merged into it
+        self.obj40 = {}      # Meta object -> {(index, addressee)} of the BindMeta operations that rewrote it while shared
         self.taint_log = []  # per operation: (F11 taints, F40 taints) of every class at that time
 
     @staticmethod
@@ -257,6 +258,8 @@ class Sim:
                         self.tainted40.setdefault(x, set()).add(self.i)
                 if foreign:
                     self.objt.setdefault(self.ref[c], set()).update(foreign)
+                if self.obj40.get(r):
+                    self.obj40.setdefault(self.ref[c], set()).update(self.obj40[r])
             self.mobj[self.ref[c]] = self.m_and(self.mobj[self.ref[c]], self.mobj[r])
         else:
             self.ref[c] = r
@@ -266,9 +269,14 @@ class Sim:
     def taints11(self, c):
         return self.tainted11.get(c, set()) | self.objt.get(self.ref.get(c), set())
 
+    def taints40(self, c):
+        """BindMeta operations addressed to ANOTHER class that rewrote the Meta object c refers to (directly, or
+        an ancestor's object whose settings were merged into c's at definition)"""
+        return self.tainted40.get(c, set()) | {i for i, a in self.obj40.get(self.ref.get(c), set()) if a != c}
+
     def snapshot(self):
         self.taint_log.append(({c: self.taints11(c) for c in self.decl if self.taints11(c)},
-                               {c: set(v) for c, v in self.tainted40.items()}))
+                               {c: self.taints40(c) for c in self.decl if self.taints40(c)}))
 
     def step(self, o):
         regions = self._step(o)
@@ -306,6 +314,7 @@ class Sim:
                     self.tainted40.setdefault(x, set()).add(self.i)
                 if sharers:
                     regions['F40'] = {self.i}
+                    self.obj40.setdefault(r, set()).add((self.i, c))
                 self.mobj[r] = self.m_and(self.mobj[r], o['meta'])
             return regions
         kind = 'load' if k == 'load' else 'dump'
@@ -337,8 +346,8 @@ class Sim:
                 self.f10_dirty.add(n)
                 regions.setdefault('F10', set()).update(j for g, j in self.gov.get(n, []))
             self.gov.setdefault(n, []).append((e, self.i))
-            if n in self.tainted40:
-                regions.setdefault('F40', set()).update(self.tainted40[n])
+            if self.taints40(n):
+                regions.setdefault('F40', set()).update(self.taints40(n))
             if self.taints11(n):
                 regions.setdefault('F11', set()).update(self.taints11(n))
         return regions
